@@ -30,7 +30,35 @@ META = {
                         "the witness is replayed on every run.",
         explanation="All clauses proved unbounded except the unison 'never mixes / <= 6' clause on exotic inputs (known finding).",
     ),
+    "C04": dict(
+        claimed=True, level="proof",
+        technique="contract-based deductive verification; finite key domain decided by complete case split through the same VC generator",
+        level_text="Key lookups (is_valid_key, get_key_signature, get_key_signature_accidentals, get_notes, relative_major/minor, "
+                   "Key()) are proved for ALL strings: one obligation set per supported key (30, parameter bound to the literal) plus "
+                   "one symbolic reject case 'any other string' -> the note-format error; get_key for all integers. Results are tied "
+                   "to spec functions computed from the circle of fifths and the step patterns, not from the code's table. The "
+                   "relational clauses (signature = accidentals of the note list, inverses, relatives share a note set, minor tonic "
+                   "9 above) are lemmas proved over those contracts; diatonic second..seventh for every key and every spelling of "
+                   "the start note (only its first letter is symbolic-split by the solver).",
+        level_note=TB + " The memo table _key_cache is handled by a complete hit/miss case split under its invariant (entries equal "
+                        "the spec value; only supported keys occur); aliasing of returned rows is C15's subject, not C04's.",
+        explanation="All clauses proved; finite domain (30 keys, 15 signature numbers) enumerated completely as separate obligations.",
+    ),
+    "C03": dict(
+        claimed=True, level="proof",
+        technique="contract-based deductive verification (own VC generator over the real ASTs + z3/cvc5); round trips as lemmas over the contracts",
+        level_text="intervals.determine: for ALL pairs of valid names (any accidentals) whose letter-counted ascending distance is "
+                   "0..11, the long form is exactly quality(offset)+' '+number(letters) and the short form is offset sharps / flats "
+                   "followed by the degree digit. intervals.from_shorthand: for ALL names and ALL shorthands with an accidental "
+                   "prefix of ANY length (loop invariant over the prefix), up and down: right letter, exact accidental count, "
+                   "pitch class +-(major size + sharps - flats); False for a bad name or degree. invert: for lists of ANY "
+                   "length, result reversed, argument restored, result fresh. 'name then apply reproduces the second note' and "
+                   "'up then down returns the start' are lemmas proved from those contracts for names up to double accidentals.",
+        level_note=TB + " String identity in the two round-trip lemmas is stated as shape(result, letter, net): a letter followed by "
+                        "|net| equal accidentals, which determines the string.",
+        explanation="All clauses proved; the former deviation (augmented unison shorthand) was repaired in /repo (fix: bf73356).",
+    ),
 }
 
 _NOT_YET = "not yet brought under contract in this build step (see DESIGN.md §9 for the plan); nothing is claimed"
-NOT_APPLICABLE = dict(("C%02d" % i, _NOT_YET) for i in range(3, 21))
+NOT_APPLICABLE = dict(("C%02d" % i, _NOT_YET) for i in range(5, 21))
